@@ -448,7 +448,7 @@ func init() {
 	})
 
 	register(&Rule{
-		ID: "C15.R2", Props: []string{"C15", "C10"}, Min: 3, // C10: a long-used engine must answer like a fresh one
+		ID: "C15.R2", Props: []string{"C15", "C10", "C20"}, Min: 3, // C10: a long-used engine must answer like a fresh one
 		Doc: "a cache hit is validated: returning a cached entry is guarded by Time.Equal(stored mtime, mtime of an fs.Stat made in this call) (or by the documented 'filesystem has no mtimes' zero test), and a failed Stat never leads to a hit",
 		Run: func(p *Prog, c *Ctx) {
 			fn := p.MustFn("(*vuego.Vue).loadCachedWithFrontMatter")
@@ -1177,7 +1177,7 @@ func init() {
 	})
 
 	register(&Rule{
-		ID: "C17.R7", Props: []string{"C17", "C08"}, Min: 2,
+		ID: "C17.R7", Props: []string{"C17", "C08", "C03", "C04"}, Min: 2,
 		Doc: "struct fields are addressed by exact name or exact JSON tag: in the struct resolver the requested name is compared by string equality with the tag's name part (or used for FieldByName), never by prefix/substring/case-folding tests, so that `user` cannot resolve to `user_id` and a non-existent name stays absent",
 		Run: func(p *Prog, c *Ctx) {
 			fn := p.MustFn("reflect.resolveStruct")
